@@ -31,6 +31,9 @@ type item struct {
 	pyIdx   int
 	verdict string
 	files   []aspgen.File
+	fresh   *freshProbe // stream "fresh"
+	sortp   *sortProbe  // stream "sortkey"
+	refused bool        // the evaluator model refuses part of the program (dict.copy, sorted(key=)): a refusal is no disagreement
 }
 
 func hasBigInt(p aspgen.Prog) bool {
@@ -208,13 +211,18 @@ func coqPyObs(v any) string {
 func main() {
 	gologging.SetLevel(gologging.CRITICAL, "plz")
 	lib.Main("C16", func(c *lib.Ctx) {
-		c.Model("From PlzV Require Import Model.C16_Syntax Model.C16_Eval Model.C16 Model.C16_Pure.", "C16_Pure.case", "C16_Pure.check")
+		c.Model("From PlzV Require Import Model.C16_Syntax Model.C16_Eval Model.C16 Model.C16_Pure Model.C16_Sort.", "C16_Sort.case", "C16_Sort.check")
 		c.Rule("programs of the BUILD language generated as ASTs (typed trees flattened with only the parentheses CPython needs, so chains of 3-6 operators of mixed " +
 			"precedence; negative/large ints, non-ASCII strings, lists, dicts, comprehensions with filters, functions with defaults, for/if, builtins len sorted reversed " +
 			"range enumerate zip any all min max str join split keys), printed once, the text parsed and interpreted by the real asp (printer validated: the real parser's " +
 			"AST must equal the generated one) and executed by python3; plus one witness per known difference and the pre-fix corpus, an ill-typed stream, and a stream " +
 			"aimed at the PURE fragment of Model/C16_Pure.v (chains over ints/strings/lists with list truthiness, inline if, list +, if/elif/else, for with break/continue, " +
-			"+= on scalars, assert); every single-file program is ALSO a PPure case: the Go verdict on membership in the fragment must equal Coq's in_pure_subset on the " +
+			"+= on scalars, assert), a stream of ALIASING PROBES (r = <operation on a> for every operator/builtin that could hand back an operand - dict | with one " +
+			"empty side as literal {}, variable, defaulted parameter, kwargs | extra; d.copy(); list + [], [] + list, list * 1, sorted, reversed, sorted of sorted, " +
+			"identity comprehension - then an index-assignment into the result or the operand, all globals read back; the dict unions over two variables are also SUnion " +
+			"model cases of the union steps gotrans translated), and a stream of sorted(l, key=f, reverse=...) calls on pairwise different elements with few different " +
+			"keys (ints by x % m / x // m / constant, strings by len / first rune, pairs by first component; 2-12 elements, each call also an SSort model case with the " +
+			"keys the real interpreter computed; and 13-40 elements, where sort.Slice is pdqsort); every single-file program is ALSO a PPure case: the Go verdict on membership in the fragment must equal Coq's in_pure_subset on the " +
 			"same AST, and whenever the reference run pure_run succeeds the real interpreter must have run without error, agreed with python3, and printed its globals. " +
 			"distinct = distinct program texts; non-trivial = a chain of >= 2 operators of different precedence, or a list/dict/function/loop")
 
@@ -249,6 +257,15 @@ func main() {
 		for i := 0; i < nPure; i++ {
 			add(&item{name: fmt.Sprintf("pure:%d", i), stream: "pure", build: PureProgram(c.Rng.Fork())})
 		}
+		nFresh, nSort, nSortBig := c.Scale(120, 5000), c.Scale(80, 4000), c.Scale(16, 800)
+		for i := 0; i < nFresh; i++ {
+			fp := FreshProbe(c.Rng.Fork())
+			add(&item{name: fmt.Sprintf("fresh:%d", i), stream: "fresh", build: fp.prog, fresh: fp, refused: fp.loose})
+		}
+		for i := 0; i < nSort+nSortBig; i++ {
+			sp := SortProbe(c.Rng.Fork(), i >= nSort)
+			add(&item{name: fmt.Sprintf("sortkey:%d", i), stream: "sortkey", build: sp.prog, sortp: sp, refused: true})
+		}
 
 		// ---- run the real interpreter, validate the printer
 		var jobs []aspgen.PyJob
@@ -259,7 +276,7 @@ func main() {
 				files = []aspgen.File{{Name: "p", Src: it.raw}}
 				it.pysrc = it.raw
 			} else {
-				it.loose = hasBigInt(it.build) || hasBigInt(it.defs) || strings.Contains(aspgen.Source(it.build), "\" % ") ||
+				it.loose = it.refused || hasBigInt(it.build) || hasBigInt(it.defs) || strings.Contains(aspgen.Source(it.build), "\" % ") ||
 					strings.Contains(aspgen.Source(it.build), "//") || strings.Contains(aspgen.Source(it.defs), "//")
 				if it.defs != nil {
 					files = append(files, aspgen.NewFile("//defs:d", it.defs, true))
@@ -358,6 +375,38 @@ func main() {
 			}
 			c.Hist("outcome", "differ")
 			it.verdict = "differ"
+			if it.sortp != nil && it.sortp.n > 12 && it.py.Err == "" {
+				// beyond 12 elements sort.Slice is pdqsort, which is not stable: the only difference allowed under this class is the
+				// order of elements with EQUAL keys in the result of a sorted(key=) call
+				ap := aspgen.PlainGlobals(it.asp.Final)
+				keyOf := map[string]string{}
+				l, _ := ap["l"].([]any)
+				ks, _ := ap["ks"].([]any)
+				for k := range l {
+					if k < len(ks) {
+						keyOf[aspgen.Canon(l[k])] = aspgen.Canon(ks[k])
+					}
+				}
+				isCall := map[string]bool{}
+				for _, sc := range it.sortp.calls {
+					isCall[sc.name] = true
+				}
+				tieOnly := true
+				bad := diffVars(it.asp.Final, it.py.OK, it.py.Skipped)
+				for _, name := range bad {
+					a, ok1 := ap[name].([]any)
+					p, ok2 := it.py.OK[name].([]any)
+					if !isCall[name] || !ok1 || !ok2 || !onlyTieOrderDiffers(a, p, keyOf) {
+						tieOnly = false
+					}
+				}
+				if tieOnly {
+					c.Fail("sorted-key-unstable-beyond-12-elements", fmt.Sprintf("sorted(key=) on %d elements: asp orders elements of equal key differently from CPython's stable sort (%s)", it.sortp.n, strings.Join(bad, ",")),
+						map[string]any{"src": it.src, "asp": it.asp.Final, "python": it.py})
+					c.Hist("sorted_over_12", "tie-order-differs")
+					continue
+				}
+			}
 			if it.tpl != nil && it.tpl.Asp != nil {
 				// exact known outcome: asp differs from CPython exactly on the listed variables, with the listed values
 				bad := diffVars(it.asp.Final, it.py.OK, it.py.Skipped)
@@ -460,7 +509,7 @@ func main() {
 				continue
 			}
 			maxOps, classes := chainStats(append(append(aspgen.Prog{}, it.defs...), it.build...))
-			nontrivial := maxOps >= 2 || it.stream == "program" || it.stream == "defs" || it.stream == "pure"
+			nontrivial := maxOps >= 2 || it.stream == "program" || it.stream == "defs" || it.stream == "pure" || it.stream == "fresh" || it.stream == "sortkey"
 			c.HistN("max_chain_ops", maxOps)
 			for _, cl := range classes {
 				c.Hist("chain_class", cl)
@@ -476,8 +525,41 @@ func main() {
 			if it.defs != nil {
 				js["defs"] = aspgen.Source(it.defs)
 			}
-			c.Case(lib.App("PBase", lib.App("CAsp", lib.Bool(it.loose), defs, lib.List([]string{aspgen.CoqProg(it.build)}), lib.List([]string{coqOutcome(it.asp)}))),
-				js, it.pysrc, nontrivial)
+			if it.fresh != nil {
+				c.Hist("fresh_kind", it.fresh.kind+":"+it.verdict)
+			}
+			if it.sortp != nil {
+				c.Hist("sort_kind", it.sortp.kind)
+				c.HistN("sort_len", it.sortp.n)
+				if it.sortp.n <= 12 && it.asp.Err == "" {
+					for _, sc := range it.sortp.calls {
+						term, sjs := sortCase(it.asp.Final, sc)
+						if term == "" {
+							c.Fail("sort-probe-not-readable", "the globals l / ks / "+sc.name+" of a sorted(key=) probe are not what the probe defines", map[string]any{"src": it.src, "asp": it.asp.Final})
+							continue
+						}
+						sjs["name"], sjs["src"] = it.name+":"+sc.name, it.src
+						c.Case(term, sjs, "sort:"+sc.name+":"+it.pysrc, true)
+					}
+				}
+			}
+			if it.fresh != nil && it.fresh.union != nil && it.asp.Err == "" {
+				u := it.fresh.union
+				ap := aspgen.PlainGlobals(it.asp.Final)
+				od, ok1 := obsZDict(ap[u.left])
+				oe, ok2 := obsZDict(ap[u.right])
+				or, ok3 := obsZDict(ap["r"])
+				if ok1 && ok2 && ok3 {
+					c.Case(lib.App("SUnion", zkvCoq(u.ld), zkvCoq(u.rd), lib.Str(u.k), lib.Z(int64(u.v)), lib.Bool(u.intoResult), od, oe, or),
+						map[string]any{"name": it.name + ":union", "src": it.src, "asp": it.asp.Final}, "union:"+it.pysrc, true)
+				} else {
+					c.Fail("union-probe-not-readable", "the globals of a dict union probe are not dicts of ints", map[string]any{"src": it.src, "asp": it.asp.Final})
+				}
+			}
+			if it.sortp == nil {
+				c.Case(lib.App("SBase", lib.App("PBase", lib.App("CAsp", lib.Bool(it.loose), defs, lib.List([]string{aspgen.CoqProg(it.build)}), lib.List([]string{coqOutcome(it.asp)})))),
+					js, it.pysrc, nontrivial)
+			}
 			if it.defs == nil && !hasOctal(it.build) { // (an octal literal: the AST holds asp's reading of the digits, python3 reads another number)
 				// membership in the pure fragment (Go verdict against Coq's), and the reference run against the real runs
 				flag := inPureSubset(it.build)
@@ -487,7 +569,7 @@ func main() {
 				if aspOK {
 					globals = aspgen.CoqGlobals(it.asp.Final)
 				}
-				c.Case(lib.App("PPure", lib.Bool(flag), aspgen.CoqProg(it.build), lib.Bool(aspOK), lib.Bool(agree), globals),
+				c.Case(lib.App("SBase", lib.App("PPure", lib.Bool(flag), aspgen.CoqProg(it.build), lib.Bool(aspOK), lib.Bool(agree), globals)),
 					map[string]any{"name": it.name + ":pure", "src": it.src, "in_pure_subset": flag, "asp_ok": aspOK, "agree": agree}, "pure:"+it.pysrc, flag && nontrivial)
 				if flag {
 					c.Hist("pure_subset", "in:"+it.verdict)
@@ -499,7 +581,7 @@ func main() {
 				}
 			}
 			// the reference model against python3 (same AST, CPython's semantics)
-			if it.defs == nil && it.stream != "malformed" && !it.py.Float && len(it.py.Skipped) == 0 && !hasOctal(it.build) {
+			if it.defs == nil && it.stream != "malformed" && !it.py.Float && len(it.py.Skipped) == 0 && !hasOctal(it.build) && it.sortp == nil {
 				obs := "OErr"
 				if it.py.Err == "" {
 					kv := []string{}
@@ -508,7 +590,7 @@ func main() {
 					}
 					obs = "(OGlobals [] " + lib.List(kv) + ")"
 				}
-				c.Case(lib.App("PBase", lib.App("CPy", lib.Bool(it.loose || strings.Contains(it.src, " / ")), aspgen.CoqProg(it.build), obs)),
+				c.Case(lib.App("SBase", lib.App("PBase", lib.App("CPy", lib.Bool(it.loose || strings.Contains(it.src, " / ")), aspgen.CoqProg(it.build), obs))),
 					map[string]any{"name": it.name + ":py", "src": it.src, "python": it.py}, "py:"+it.pysrc, false)
 			}
 		}
